@@ -22,6 +22,8 @@ claimed = {
  "C09": ("One step of every state handler and of the recovery checker under acknowledged full maintenance (coordination service up, down or failing): no mutating statement, no write to master/active list; light mode never starts or files a failover while planned requests and repairs proceed; leaving succeeds only with exactly one alive master, which becomes the recorded master with a non-empty rebuilt list, several masters raise the emerge file; the acknowledgement is written last on entering. The Candidate/no-marker-file outage case is a known finding.", "§7 C09"),
  "C11": ("One checkRecovery step from arbitrary local role, replication state, GTID relation (6/9 bits), read-only flag, stuck commits and timers: the mark is cleared only for a read-only replica without replication error whose set is contained in the master's, otherwise the resetup file is written and the mark stays; SetRecovery delists before it marks at every crash point; calcActiveNodes and every published list exclude marked non-masters; stale masters are taken offline and marked (mark before re-point); a marked offline master stays offline; performSwitchover leaves the old master clean or marked and never promotes a marked host; ClearRecovery's only caller is checkRecovery (SSA call graph).", "§7 C11"),
  "C19": ("The real Syncer.Sync and Controller (Enable/Disable/DisableAll/Wait) with the real DCS adapter and *mysql.Node over the fake fleet: after a fault-free sync at most one host is left relaxed, hosts without lag or converged are restored then deregistered, deregistration only after a successful restore or for non-cluster hosts (also with 1 failing call); switchover link: no candidate registered or relaxed at the first freeze statement and at promotion, incl. the turbo phase. The latent Wait deregistration is a known finding.", "§7 C19"),
+ "C07": ("Bounded two-manager history on the real code: manager #1 runs a full stateManager iteration with a pending request and dies right before its k-th environment call (every mutating statement and coordination write is a crash point, k a decision), a new daemon instance on another host then runs stateManager iterations until quiescent; GTID sets symbolic prefixes under the semi-sync invariant; asserted: request terminal, exactly one writable node = recorded master, reachable replicas read-only and following it, no acknowledged transaction missing. (The inductive I7 formulation of the design was not built: single crash only.)", "§7 C07"),
+ "C20": ("Claimed clause only: no reachable Go panic. One iteration of every state handler (everything real above the Node/DCS cut) and of every background check under all combinations of up to 2 (3) anomalies of the coordination tree and the fleet (unregistered recorded master / stream_from, missing or empty health records, lists and registries naming unknown hosts, dead servers, requests naming unknown hosts, maintenance) plus one failing MySQL call and one failing coordination operation; the interpreter's panic detection is the assertion, counterexamples are replayed natively. Leaks and data races are outside the technique (manifest note).", "§7 C20"),
  "C06": ("One manager iteration of the real stateManager request branch (approve/start/perform/fail-or-finish with the real appDCS bookkeeping) from an arbitrary pending request with symbolic run_count, attempt limit, timeout, initiation time and clock; the same iteration interleaved with the operator's abort and the real initiators (CliSwitch, IssueFailover) at every manager write to `switch`; two initiators racing; and the iteration with the whole real performSwitchover (success record implies recorded master = promoted node and writable). Abort/initiator races that the missing compare-and-set makes possible are listed as known findings.", "§7 C06"),
  "C08": ("One iteration of the real stateLost (with checkHAReplicasRunning, getLocalNodeState, the real Node.SetReadOnly/setReadonlyWithTimeout) over every row of the statement's decision table: topology (single node, non-HA, 2..3/4 HA hosts), local role, per-replica probe outcome (streaming, stopped, wrong source, not semi-sync, refusing, hanging), every outcome of SET read_only incl. stuck commits, loss timer and elapsed time symbolic. The local-status-query failure case is a known finding.", "§7 C08"),
  "C10": ("One manager pass of the real repair functions over a grid of replica states (read-only x role x 4-8 thread/error classes x semi-sync), master states, repair histories with symbolic counters/limits/cooldown clock, decoy hosts, and 1 (2) failing or lost-reply calls: safety ids on every path (master key untouched, only registered hosts, never self, reset gated by aggressive mode/attempt limit/cooldown) and the fixpoint characterisation (no statement issued implies canonical state; every statement corrective).", "§7 C10"),
